@@ -538,6 +538,10 @@ REWRITE_RULES = {
     'R4': [
         (re.compile(r'([A-Za-z_][A-Za-z0-9_]*)\.chars\(\)\.count\(\)'), r'verif_str_char_count(\1)'),
     ],
+    'R19': [
+        # format!(...) producing a diagnostic String: replaced by an opaque String (no semantic content for the contracts)
+        (re.compile(r'format!\((?:[^()]|\([^()]*\))*\)'), r'verif_opaque_string()'),
+    ],
     'R15': [
         (re.compile(r'std::mem::size_of::<u64>\(\)'), r'8usize'),
         (re.compile(r'std::mem::size_of::<i64>\(\)'), r'8usize'),
